@@ -113,7 +113,7 @@ def check_parser_paths(ctx, ex, species, cutoff, tag):
 
 def task_cutoff(ctx):
     fn = ctx.under_contract(BAS + ":Parser.forward")
-    species = [[8, 1, 1], [1, 1, 0]]
+    species = [[8, 1, 1], [1, 1, 0]] if ctx.tier == "quick" else [[8, 1, 1], [6, 1, 1]]
     cutoff = real("cutoff")
 
     def thunk():
@@ -122,10 +122,11 @@ def task_cutoff(ctx):
         mol = parser_molecule(species)
         return mol, fn(ps, mol, "AM1")
 
-    ex = ctx.explore(thunk, name="Parser.forward", max_paths=64)
+    ex = ctx.explore(thunk, name="Parser.forward", max_paths=2048)
     n = check_parser_paths(ctx, ex, species, cutoff, "cutoff")
-    if n != 16:
-        ctx.error("paths", "expected 2^4 in/out combinations of the 4 candidate pairs, got %d" % n)
+    npairs = sum(len([z for z in row if z > 0]) * (len([z for z in row if z > 0]) - 1) // 2 for row in species)
+    if n != 2 ** npairs:
+        ctx.error("paths", "expected 2^%d in/out combinations of the candidate pairs, got %d" % (npairs, n))
     ctx.assume_note("shape-bounded: batch [O,H,H],[H,H,pad]; coordinates (incl. the padding slot's) and the cutoff are symbolic")
 
 
